@@ -35,6 +35,7 @@ def _verify_one(args):
         mod = load_property_module(pid)
         reg = Registry()
         mod.build(reg)
+        reg.units = [c for c in reg.units if pid in c.props]
         contract = reg.units[idx]
         res, ex = verify.verify_unit(reg, contract, tier)
         out = {"unit": res.name, "addr": res.addr, "status": res.status, "message": res.message, "notes": res.notes,
@@ -73,6 +74,7 @@ def run_units(pid, tier, timeout_ms, overrides=None, only=None, jobs=None):
     mod = load_property_module(pid)
     reg = Registry()
     mod.build(reg)
+    reg.units = [c for c in reg.units if pid in c.props]
     idxs = [i for i, c in enumerate(reg.units) if only is None or any(o in c.name for o in only)]
     jobs = jobs or min(16, max(1, len(idxs)))
     args = [(pid, i, tier, timeout_ms, overrides) for i in idxs]
